@@ -34,7 +34,7 @@ PROTOCOL_RUNS = [
     ("SeriesCache_mcp.cfg", "protocol: play mode (stale accepted) and forced loads", None, False),
     ("SeriesCache_live.cfg", "liveness: every request returns (fair loaders)", None, False),
     ("SeriesCache_orig_await.cfg", "before the repair: a request joins a load that finished before the invalidation", "invariant:CexExport", False),
-    ("SeriesCache_half_await.cfg", "half repair (only maybeAddChunk): a superseded load still publishes", "invariant:CexExport", False),
+    ("SeriesCache_half_await.cfg", "half repair (only maybeAddChunk): a superseded load still publishes", "invariant:CexExport", True),
     ("SeriesCache_mc2_big.cfg", "protocol: 2 chunks x 2 slots, 2 requests, 1 invalidation, 1 trim, 1 failure", None, True),
     ("SeriesCache_mc1g3_big.cfg", "protocol: 1 chunk, 3 requests, invalidation, trim, failure", None, True),
     ("SeriesCache_mc_big.cfg", "protocol: 2 chunks x 2 slots, 3 requests (whole chunks), 1 invalidation", None, True),
@@ -49,7 +49,7 @@ PROTOCOL_RUNS = [
 MEM_RUNS = [
     ("SeriesCacheMem_mc.cfg", "memory limits: 2 loads, hard 3 / soft 2", None, False),
     ("SeriesCacheMem_orig.cfg", "before the repair: two loads over the hard limit sleep forever", "invariant:NoStuck", False),
-    ("SeriesCacheMem_mc2.cfg", "memory limits: 3 loads announcing twice, hard 3 / soft 2", None, False),
+    ("SeriesCacheMem_mc2.cfg", "memory limits: 3 loads announcing twice, hard 3 / soft 2", None, True),
     ("SeriesCacheMem_mc3_big.cfg", "memory limits: 3 loads, hard 4 / soft 2", None, True),
     ("SeriesCacheMem_mc4_big.cfg", "memory limits: 3 loads, hard 2 / soft 1, empty cache", None, True),
     ("SeriesCacheMem_nolimit_big.cfg", "no limits", None, True),
@@ -141,6 +141,9 @@ def judge_traces(ctx, files, stage):
             raise Infra("trace rejection not reproducible (%s vs %s)" % (tv.violated, tv2.violated))
         where = [l for l in tv.printed if "TRACE_REJECTED" in l]
         line = int(re.search(r"(\d+)>>", where[0]).group(1)) if where else None
+        if line is None:
+            m = re.findall(r"/\\ l = (\d+)", tv.cex)
+            line = int(m[-1]) if m else None
         if line and tv.violated.startswith("invariant"):
             line -= 1  # the state after the event of the previous line violates the invariant
         run, cfg, ev = run_at(keep, line) if line else (None, None, None)
@@ -185,12 +188,14 @@ def run(ctx):
     for cfg, b in cex:
         sched.append([{"a": "Scenario", "name": "cex:" + cfg, "cs": CFG_CS[cfg]}] + b)
     nsim = 0
-    for cfg, num, depth, want in (("SeriesCache_beh.cfg", 400 if th else 80, 16, 300 if th else 40),
-                                  ("SeriesCache_beh3.cfg", 400 if th else 60, 20, 300 if th else 30)):
+    sims = [("SeriesCache_beh.cfg", 400 if th else 100, 16, 300 if th else 60)]
+    if th:
+        sims.append(("SeriesCache_beh3.cfg", 400, 20, 300))
+    for cfg, num, depth, want in sims:
         for b in ([] if "nosim" in dev else simulated_behaviours(ctx, cfg, num, depth, want)):
             sched.append([{"a": "Scenario", "name": "sim:" + cfg, "cs": CFG_CS[cfg]}] + b)
             nsim += 1
-    res = drive(ctx, "TestVerifC23Sched", "sched", inp=sched, env={"VERIF_C23_LANES": 6}, timeout=2400)
+    res = drive(ctx, "TestVerifC23Sched", "sched", inp=sched, env={"VERIF_C23_LANES": 6 if th else 3}, timeout=2400)
     if res is not None:
         ninfra = res.get("counters", {}).get("infra", 0)
         if ninfra > max(3, len(sched) // 10):
